@@ -143,6 +143,9 @@ def oracle2(scn, c_out, l_out):
             return None
         if any(regs.F(d) == 0 and d not in B for d in its):
             return None
+    for k in lists:
+        if any(n["type"] in DATA_TYPES and n["nbits"] <= 0 and not (n["flags"] & 4) for n in parse_nodes(lists[k])):
+            return None       # an operator reduced an element's width to zero or less: not a width FM 94 knows (cf. C09)
     if spec == "none":
         return "the reference decoder rejects the encoder's data section (not a well-formed FM 94 encoding of this template)"
     subs = parse_spec(spec)
